@@ -413,7 +413,7 @@ def c11(run, scratch):
     for e in ex[100:103]:
         run.sample({'expr': e[0], 'full': e[1], 'ok': e[2], 'value': e[3]})
     run.coverage['trusted_base'] = ['TLC', 'AsmExpr.tla as the reading of Python integer arithmetic and precedence', 'the harness compares two observed outputs for the substitution clause']
-    run.assumptions += ['a name in a branch / jump target position is a label-style reference (documented "offset" behaviour), not an integer operand site; numeric sequence '
+    run.assumptions += ['the operands of align, fence (pred / succ) and the aq / rl bits of atomics are taken as literals by the assembler (a constant there is refused); they are not among the uses the property lists and are not exercised', 'a name in a branch / jump target position is a label-style reference (documented "offset" behaviour), not an integer operand site; numeric sequence '
                         'directives (bytes/shorts/..) are documented to take integer literals only: both are outside the substitution clause',
                         'expression values are kept below 2^22 (TLC integers are 32-bit); the operators\' semantics do not depend on magnitude']
 
